@@ -1,0 +1,51 @@
+//go:build verif
+
+// Contracts for gocv (see /verif/DESIGN.md). Comment-only file: takes no part in any build.
+
+package difficulty
+
+// ---- C20 (work part only): the work of a target, and its monotonicity --------------------------------------
+// A *big.Int is viewed through its mathematical value bigval (the math/big methods used are trusted against
+// this view). pow256 = 2^256.
+//@ ghost *.bigval Int
+//@ smt (define-fun pow256 () Int 115792089237316195423570985008687907853269984665640564039457584007913129639936)
+//@ trusted func math/big.NewInt
+//@   frame allocates
+//@   ensures result != nil && fresh(result) && result.bigval == x
+//@ trusted func (*math/big.Int).Add
+//@   frame z.bigval
+//@   ensures result == z && z.bigval == old(x.bigval) + old(y.bigval)
+//@ trusted func (*math/big.Int).Div
+//@   frame z.bigval
+//@   ensures result == z && (old(y.bigval) > 0 ==> z.bigval == old(x.bigval) / old(y.bigval))
+//@ trusted func (*math/big.Int).Sign
+//@   frame nothing
+//@   ensures (result > 0) == (x.bigval > 0) && (result < 0) == (x.bigval < 0)
+//@ pure func CompactToBig
+
+// work(target) = 2^256 / (target + 1) for a positive target, 0 otherwise
+//@ func CalcWork [C20]
+//@   opt safety=assumed
+//@   requires oneLsh256 != nil && bigOne != nil && oneLsh256.bigval == pow256 && bigOne.bigval == 1
+//@   ensures result != nil
+//@   ensures ret(CompactToBig).bigval <= 0 ==> result.bigval == 0
+//@   ensures ret(CompactToBig).bigval > 0 ==> result.bigval == pow256 / (ret(CompactToBig).bigval + 1)
+//@   assert@call CompactToBig: arg0 == bits
+
+// a larger target never has more work
+//@ lemma work_antitone [C20]
+//@   forall a Int, b Int
+//@   requires 0 < a && a <= b
+//@   ensures pow256 / (b + 1) <= pow256 / (a + 1)
+
+// The compact form has an 8-bit exponent = byte length of the number (+1 when the mantissa's top bit is
+// set). BigToCompact does not check that the length fits: for integers longer than 254 bytes the exponent
+// wraps and the value decodes to something unrelated (finding F12, recorded as a known finding; consensus
+// code left alone). The obligation below states the missing domain check.
+//@ pure func (*math/big.Int).Bytes
+//@ pure func (*math/big.Int).Bits
+//@ pure func (*math/big.Int).Set
+//@ pure func (*math/big.Int).Rsh
+//@ func BigToCompact [C20]
+//@   opt safety=assumed overflow=assumed panics=allowed deadreturns=allowed
+//@   ensures called(Bytes) ==> len(ret(Bytes)) <= 254
